@@ -127,7 +127,7 @@ def check_pair(P, inp, files, tier, scratch):
         return 'undefined', str(u), None, {}
     src = xlang.p_prog(P)
     sp = os.path.join(scratch, 'p.x')
-    open(sp, 'w').write(src)
+    open(sp, 'w', encoding='latin-1').write(src)
     img = os.path.join(scratch, 'p.bin')
     ok, r = toolchain.compile_x(sp, img, scratch)
     if not ok:
@@ -284,7 +284,7 @@ def check_tour(items, expected, scratch):
     the decode walk assigns; trace consumed under the guidance of the ISA reference."""
     from .. import asmgen
     sp = os.path.join(scratch, 'p.S')
-    open(sp, 'w').write(asmgen.render(items))
+    open(sp, 'w', encoding='latin-1').write(asmgen.render(items))
     img = os.path.join(scratch, 'p.bin')
     ok, r = toolchain.assemble(sp, img, scratch)
     if not ok:
